@@ -345,6 +345,16 @@ theorem zoom_axis_ordered (f : Facts) (s : Rat) (h : f.repeatStart = some s) (hs
   rw [h1, h2]
   grind
 
+/-- … and it is a real interval as soon as the repeated section starts before the end of the time range (it is a single
+point when the section starts *at* `MaxTime` — `repeat 1 times` with an empty last act —, which gnuplot refuses: the code
+does not exclude that, see DESIGN 10.3) -/
+theorem zoom_axis_nonempty (f : Facts) (s : Rat) (h : f.repeatStart = some s) (hs : s < f.maxTime) :
+    ∃ z, (plotModel f).zoom = some z ∧ z.xmin < z.xmax := by
+  obtain ⟨z, hz, _, _, _, _, h1, h2, _⟩ := zoom_same f s h
+  refine ⟨z, hz, ?_⟩
+  rw [h1, h2]
+  grind
+
 /-- … and it was reversed whenever the section started beyond `MaxTime` (witness of the old behaviour) -/
 theorem zoom_axis_reversed_beyond_the_range (f : Facts) (s : Rat) (h : f.repeatStart = some s) (hs : f.maxTime < s) :
     ∃ z, (plotModel f).zoom = some z ∧ z.xmax < z.xmin := by
